@@ -26,6 +26,8 @@ pub enum Regime {
     Spikes,
     /// gentle climb with one outlier 1e9 times larger at the third step (not carried forward)
     Outlier,
+    /// the price moves only on every second step (identical consecutive bars in between)
+    Stair,
 }
 
 impl Regime {
@@ -43,6 +45,7 @@ impl Regime {
             Regime::Plateau => "plateau",
             Regime::Spikes => "spikes",
             Regime::Outlier => "outlier",
+            Regime::Stair => "stair",
         }
     }
 }
@@ -112,6 +115,17 @@ impl Gen {
                 }
             }
             Regime::Outlier => self.x,
+            Regime::Stair => {
+                if i % 2 == 1 {
+                    self.x
+                } else {
+                    match (i / 2) % 3 {
+                        0 => self.x * 1.02,
+                        1 => self.x * 1.01,
+                        _ => self.x * 0.975,
+                    }
+                }
+            }
         };
         if r == Regime::Outlier {
             // the level climbs gently; the outlier itself is not carried forward
@@ -127,6 +141,10 @@ impl Gen {
         let v = volumes[self.t % volumes.len()];
         if r == Regime::Flat || r == Regime::Plateau {
             return Bar { o: p, h: p, l: p, c: p, v };
+        }
+        if r == Regime::Stair {
+            // identical bars (hence identical typical prices) while the price rests
+            return Bar { o: p, h: p * 1.01, l: p * 0.99, c: p, v: if v == 0.0 { 1.0 } else { v } };
         }
         let h = p * 1.01;
         let l = p * 0.99;
